@@ -187,9 +187,9 @@ def parseBase0 (cs : List Char) : Option Int :=
   match cs with
   | [] => none
   | c :: rest =>
-    if c = '-' then (scanNat rest).map (fun n => -(n : Int))
-    else if c = '+' then (scanNat rest).map (fun n => (n : Int))
-    else (scanNat cs).map (fun n => (n : Int))
+    if c = '-' then (scanNat rest).map (fun (n : Nat) => -(n : Int))
+    else if c = '+' then (scanNat rest).map (fun (n : Nat) => (n : Int))
+    else (scanNat cs).map (fun (n : Nat) => (n : Int))
 
 /-- `big.Int.String()` / `MarshalText`: decimal, '-' for negatives. -/
 def intChars (a : Int) : List Char := (if a < 0 then ['-'] else []) ++ Nat.toDigits 10 a.natAbs
